@@ -359,8 +359,8 @@ def step_jobs(prop, tier, checks=False, calls=1, pairs=None, ringcaps=(1,), seps
                         j = Job(name.replace("s-1", "sE"), "s_step.c", d, unwind=2 * capc + 4,
                                 unwindset=uws(capc + 1, strl=8, nvars=6, groups=2, m=3), checks=checks, timeout=900, samples=20000,
                                 required_witness=["end-of-scenario"])
-                        if checks and tier != "quick" and (vs == 4 or uvs == 4):
-                            # built-in checks + a 12-byte string formatter / parser: MiniSat > 900 s, CaDiCaL ~60 s (measured)
+                        if (checks or prop == "C11") and tier != "quick" and (vs == 4 or uvs == 4):
+                            # built-in checks (C03) or the per-byte frame obligations (C03, C11) + a 12-byte string formatter / parser: MiniSat > 900 s, CaDiCaL ~60 s (measured)
                             j.solver, j.timeout = "cadical", 1800
                         jobs.append(j)
     return with_prop(prop, jobs)
